@@ -1,4 +1,19 @@
-"""N4 of sa/normalize.py: flow-sensitive propagation of pure local aliases (runs after indexing)."""
+"""N4 of sa/normalize.py: flow-sensitive propagation of pure local aliases (runs after indexing).
+
+    fut = self._start_connect_future          if self._start_connect_future is None or self._start_connect_future.done():
+    if fut is None or fut.done():      ==>        return
+        return                                 self._start_connect_future.set_result(None)
+    fut.set_result(None)
+
+A local that is bound exactly once to a side-effect-free expression E (names, attribute chains, constants,
+constant subscripts, comparisons of those, partial(...) of those) is replaced by E at every use that no
+*dirtying* event can reach between the binding and the use: a store to a name in E, a store to an attribute
+with the name of an attribute in E (any receiver), a call of a package function whose transitive write
+summary contains such an attribute, a call of unknown code, or a suspension point (for attribute components).
+Uses inside nested lambdas / functions are replaced only if the components of E are never dirtied after the
+binding anywhere in the function.  The rewrite is what a maintainer does by hand when inlining a temporary;
+it cannot hide a violation because every event of the program is still there.
+"""
 
 from __future__ import annotations
 
@@ -8,6 +23,276 @@ from typing import Any
 
 from .src import Func, Repo, norm, own_nodes
 
+PURE_CALLS = {"partial", "functools.partial"}
+
+
+def is_pure(e: ast.expr | None, depth: int = 0) -> bool:
+    if e is None or depth > 6:
+        return False
+    if isinstance(e, (ast.Constant, ast.Name)):
+        return True
+    if isinstance(e, ast.Attribute):
+        return is_pure(e.value, depth + 1)
+    if isinstance(e, ast.Subscript):
+        sl = e.slice
+        ok_idx = isinstance(sl, ast.Constant) or (isinstance(sl, ast.UnaryOp) and isinstance(sl.operand, ast.Constant)) or (isinstance(sl, ast.Slice) and all(x is None or isinstance(x, ast.Constant) for x in (sl.lower, sl.upper, sl.step)))
+        return ok_idx and is_pure(e.value, depth + 1)
+    if isinstance(e, ast.Compare):
+        return is_pure(e.left, depth + 1) and all(is_pure(c, depth + 1) for c in e.comparators)
+    if isinstance(e, ast.UnaryOp) and isinstance(e.op, (ast.Not, ast.USub)):
+        return is_pure(e.operand, depth + 1)
+    if isinstance(e, ast.Tuple):
+        return all(is_pure(x, depth + 1) for x in e.elts)
+    if isinstance(e, ast.Call) and norm(e.func) in PURE_CALLS and not any(k.arg is None for k in e.keywords):
+        return all(is_pure(a, depth + 1) for a in e.args) and all(is_pure(k.value, depth + 1) for k in e.keywords)
+    return False
+
+
+def components(e: ast.expr) -> tuple[set[str], set[str]]:
+    """(names, attribute names) the value of e depends on."""
+    names: set[str] = set()
+    attrs: set[str] = set()
+    for n in ast.walk(e):
+        if isinstance(n, ast.Name):
+            names.add(n.id)
+        elif isinstance(n, ast.Attribute):
+            attrs.add(n.attr)
+    return names - {"self", "partial", "functools"}, attrs
+
+
+def _write_summaries(repo: Repo) -> dict[str, set[str]]:
+    """function key -> attribute names it may write (transitively), callees resolved by the engine's resolver."""
+    from .resolve import Resolver
+    from .sym import Symbols
+
+    res = Resolver(repo, Symbols(repo))
+    direct: dict[str, set[str]] = {}
+    calls: dict[str, set[str]] = {}
+    unknown: dict[str, bool] = {}
+    for f in repo.funcs.values():
+        w: set[str] = set()
+        cs: set[str] = set()
+        unk = False
+        for n in own_nodes(f.node):
+            if isinstance(n, ast.Attribute) and isinstance(n.ctx, (ast.Store, ast.Del)):
+                w.add(n.attr)
+            elif isinstance(n, ast.Call):
+                try:
+                    k = res.callees(f, n)
+                except Exception:
+                    unk = True
+                    continue
+                if k.kind in ("value", "unknown"):
+                    unk = True
+                for c in k.funcs:
+                    cs.add(c.key)
+        direct[f.key] = w
+        calls[f.key] = cs
+        unknown[f.key] = unk
+    summ = {k: set(v) for k, v in direct.items()}
+    star = {k for k, v in unknown.items() if v}
+    for _ in range(30):
+        changed = False
+        for k in summ:
+            for c in calls[k]:
+                add = summ.get(c, set()) - summ[k]
+                if add:
+                    summ[k] |= add
+                    changed = True
+                if c in star and k not in star:
+                    star.add(k)
+                    changed = True
+        if not changed:
+            break
+    for k in star:
+        summ[k].add("*")
+    _write_summaries.res = res  # type: ignore[attr-defined]
+    return summ
+
+
+def _candidates(f: Func) -> dict[str, tuple[ast.stmt, ast.expr]]:
+    stores: dict[str, list[Any]] = {}
+    for n in ast.walk(f.node):
+        if isinstance(n, ast.Name) and isinstance(n.ctx, (ast.Store, ast.Del)):
+            stores.setdefault(n.id, []).append(n)
+        elif isinstance(n, ast.arg):
+            stores.setdefault(n.arg, []).append(n)
+        elif isinstance(n, (ast.Global, ast.Nonlocal)):
+            for x in n.names:
+                stores.setdefault(x, []).extend([n, n])
+        elif isinstance(n, ast.ExceptHandler) and n.name:
+            stores.setdefault(n.name, []).extend([n, n])
+    out: dict[str, tuple[ast.stmt, ast.expr]] = {}
+    for n in own_nodes(f.node):
+        tgt = val = None
+        if isinstance(n, ast.Assign) and len(n.targets) == 1 and isinstance(n.targets[0], ast.Name):
+            tgt, val = n.targets[0].id, n.value
+        elif isinstance(n, ast.AnnAssign) and isinstance(n.target, ast.Name) and n.value is not None:
+            tgt, val = n.target.id, n.value
+        if tgt is None or len(stores.get(tgt, [])) != 1:
+            continue
+        if not is_pure(val):
+            # a temporary holding the result of a call may still be folded into its single use when nothing
+            # at all happens in between (see propagate_in); anything fancier is left alone
+            if any(isinstance(x, (ast.Await, ast.Yield, ast.YieldFrom, ast.NamedExpr, ast.Lambda, ast.ListComp, ast.SetComp, ast.DictComp, ast.GeneratorExp, ast.Starred)) for x in ast.walk(val)):
+                continue
+        if isinstance(val, ast.Constant):
+            continue  # flags / counters: rules read them as locals
+        if tgt in components(val)[0]:
+            continue
+        out[tgt] = (n, val)
+    return out
+
+
+def propagate_in(f: Func, summ: dict[str, set[str]], res: Any) -> int:
+    from .cfg import CFG, may_forward, node_calls, walk_own
+
+    cands = _candidates(f)
+    if not cands:
+        return 0
+    try:
+        g = CFG(f)
+    except Exception:
+        return 0
+    done = 0
+    for name, (st, val) in cands.items():
+        cn, ca = components(val)
+        def_nodes = [n for n in g.reachable() if n.ast is st]
+        if len(def_nodes) != 1:
+            continue
+        dn = def_nodes[0]
+
+        def dirties(n: Any) -> bool:
+            a = n.ast
+            if a is None:
+                return False
+            if n is dn:
+                return False
+            if n.kind in ("with-enter", "with-exit", "for") and n.is_async and ca:
+                return True
+            if n.kind in ("handler", "dispatch", "join", "with-exit"):
+                return False
+            for x in walk_own(a) if n.kind != "for" else ast.walk(a.target):  # type: ignore[attr-defined]
+                if isinstance(x, ast.Name) and isinstance(x.ctx, (ast.Store, ast.Del)) and x.id in cn:
+                    return True
+                if isinstance(x, ast.Attribute) and isinstance(x.ctx, (ast.Store, ast.Del)) and x.attr in ca:
+                    return True
+                if isinstance(x, ast.Await) and ca:
+                    return True
+                if isinstance(x, ast.Call):
+                    # a method called on a component name may mutate it (list.append ...)
+                    if isinstance(x.func, ast.Attribute) and isinstance(x.func.value, ast.Name) and x.func.value.id in cn and x.func.attr not in ("get", "done", "cancelled", "hex", "decode", "find", "partition", "startswith", "endswith", "items", "keys", "values", "copy"):
+                        return True
+                    if ca:
+                        try:
+                            k = res.callees(f, x)
+                        except Exception:
+                            return True
+                        if k.kind in ("value", "unknown"):
+                            return True
+                        for c in k.funcs:
+                            s = summ.get(c.key, {"*"})
+                            if "*" in s or (s & ca):
+                                return True
+            return False
+
+        impure = not is_pure(val)
+
+        def any_effect(n: Any) -> bool:
+            if n.ast is None or n.kind in ("handler", "dispatch", "join"):
+                return False
+            if n.kind in ("with-enter", "with-exit", "for", "for-init"):
+                return True
+            return any(isinstance(x, (ast.Call, ast.Await)) or (isinstance(x, (ast.Attribute, ast.Subscript)) and isinstance(x.ctx, (ast.Store, ast.Del))) for x in walk_own(n.ast))
+
+        def gk(n: Any, fact: frozenset, label: str) -> frozenset:
+            if n is dn:
+                return frozenset({"live"}) if label != "exc" else fact
+            if "live" in fact and (dirties(n) or (impure and any_effect(n))):
+                return fact | {"dirty"}
+            return fact
+
+        facts = may_forward(g, gk)
+        ever_dirty = any("dirty" in facts.get(n, frozenset()) for n in g.reachable())
+        # uses
+        uses_direct: list[tuple[Any, ast.Name]] = []
+        for n in g.reachable():
+            if n.ast is None or n.kind in ("handler", "dispatch", "join"):
+                continue
+            srcs = list(walk_own(n.ast)) if n.kind not in ("for",) else []
+            for x in srcs:
+                if isinstance(x, ast.Name) and x.id == name and isinstance(x.ctx, ast.Load):
+                    uses_direct.append((n, x))
+        nested_uses: list[ast.Name] = []
+        for n in own_nodes(f.node):
+            if isinstance(n, (ast.Lambda, ast.FunctionDef, ast.AsyncFunctionDef)):
+                shadow = {a.arg for a in ast.walk(n) if isinstance(a, ast.arg)}
+                if name in shadow:
+                    continue
+                for x in ast.walk(n):
+                    if isinstance(x, ast.Name) and x.id == name and isinstance(x.ctx, ast.Load):
+                        nested_uses.append(x)
+        repl: list[ast.Name] = []
+        ok_all = True
+        for n, x in uses_direct:
+            fin = facts.get(n, frozenset())
+            # the node itself may dirty a component before (e.g. `self._x = None` has no use); uses are read first
+            if "live" in fin and "dirty" not in fin:
+                repl.append(x)
+            else:
+                ok_all = False
+        if nested_uses:
+            if not ever_dirty:
+                repl.extend(nested_uses)
+            else:
+                ok_all = False
+        if not repl:
+            continue
+        creates_object = impure or any(isinstance(x, (ast.Call, ast.Tuple)) for x in ast.walk(val))
+        if creates_object and (len(uses_direct) + len(nested_uses) != 1 or nested_uses or not ok_all):
+            continue  # partial(...) / tuples are new objects at every evaluation: only a single use may be replaced
+        ids = {id(x) for x in repl}
+
+        class T(ast.NodeTransformer):
+            def visit_Name(self, node: ast.Name):  # noqa: N802
+                if id(node) in ids:
+                    return ast.copy_location(copy.deepcopy(val), node)
+                return node
+
+        T().visit(f.node)
+        done += len(repl)
+        if ok_all:
+            _remove_stmt(f.node, st)
+    if done:
+        ast.fix_missing_locations(f.node)
+    return done
+
+
+def _remove_stmt(root: ast.AST, st: ast.stmt) -> None:
+    for n in ast.walk(root):
+        for fld in ("body", "orelse", "finalbody"):
+            b = getattr(n, fld, None)
+            if isinstance(b, list) and st in b:
+                b.remove(st)
+                if not b and fld == "body":
+                    b.append(ast.Pass())
+                return
+
 
 def propagate_aliases(repo: Repo) -> int:
-    return 0
+    summ = _write_summaries(repo)
+    res = _write_summaries.res  # type: ignore[attr-defined]
+    total = 0
+    for _round in range(3):
+        n = 0
+        for f in list(repo.funcs.values()):
+            if f.parent is not None:
+                continue  # nested functions are rewritten through their outermost function
+            n += propagate_in(f, summ, res)
+        total += n
+        if not n:
+            break
+        # the resolver caches local assignments: start afresh for the next round
+        summ = _write_summaries(repo)
+        res = _write_summaries.res  # type: ignore[attr-defined]
+    return total
